@@ -9,6 +9,7 @@ use bytes::Bytes;
 use std::collections::VecDeque;
 use std::sync::atomic::{AtomicU64, Ordering};
 use std::sync::{Arc, Mutex};
+use std::future::Future;
 use std::task::{Poll, Waker};
 
 #[derive(Clone)]
@@ -347,6 +348,42 @@ impl CtlQ {
 }
 
 // ------------------------------------------------------------------------------------
+// abandon token: in cooperative programs an endpoint that gives up one half of a stream
+// (drops its SendStream mid-body, or stops reading) gives up the other half too, so that
+// all handles are dropped, the stream is reset and the peer is not left waiting forever.
+
+#[derive(Clone, Default)]
+pub struct Cancel(Arc<Mutex<(bool, Vec<Waker>)>>);
+
+impl Cancel {
+    pub fn fire(&self) {
+        let ws = {
+            let mut g = self.0.lock().unwrap();
+            g.0 = true;
+            std::mem::take(&mut g.1)
+        };
+        for w in ws {
+            w.wake();
+        }
+    }
+    /// true if fired; otherwise registers the waker
+    pub fn check(&self, w: &Waker) -> bool {
+        let mut g = self.0.lock().unwrap();
+        if g.0 {
+            true
+        } else {
+            if !g.1.iter().any(|x| x.will_wake(w)) {
+                g.1.push(w.clone());
+            }
+            false
+        }
+    }
+    pub fn fired(&self) -> bool {
+        self.0.lock().unwrap().0
+    }
+}
+
+// ------------------------------------------------------------------------------------
 // body sender / reader shared by both roles
 
 fn note_reset(ctx: &Ctx, side: u8, sid: u32, code: u32, kind: &'static str) {
@@ -357,7 +394,8 @@ fn note_reset(ctx: &Ctx, side: u8, sid: u32, code: u32, kind: &'static str) {
 }
 
 /// Sends the body plan on `ss`. `dir` is 0 for request bodies, 1 for response bodies.
-pub async fn send_body(ctx: Ctx, name: String, side: u8, mut ss: h2::SendStream<Bytes>, plan: BodyPlan, dir: usize, sid: u32) {
+pub async fn send_body(ctx: Ctx, name: String, side: u8, mut ss: h2::SendStream<Bytes>, plan: BodyPlan, dir: usize, sid: u32, cancel: Cancel) {
+    let coop = ctx.coop;
     let mut off: u64 = 0;
     let n = plan.chunks.len();
     let mut ended = false;
@@ -385,6 +423,9 @@ pub async fn send_body(ctx: Ctx, name: String, side: u8, mut ss: h2::SendStream<
                 });
                 note_reset(&ctx, side, sid, 8, "drop_send");
                 ctx.hist.log(side, sid, || "drop SendStream".to_string());
+                if coop {
+                    cancel.fire();
+                }
                 aborted = true;
                 break 'outer;
             }
@@ -407,8 +448,24 @@ pub async fn send_body(ctx: Ctx, name: String, side: u8, mut ss: h2::SendStream<
                 };
                 ss.reserve_capacity(want);
                 ctx.status.set(&name, "poll_capacity");
-                let got = poll_fn(|cx| ss.poll_capacity(cx)).await;
+                let got = poll_fn(|cx| {
+                    if coop && cancel.check(cx.waker()) {
+                        return Poll::Ready(Some(Ok(usize::MAX)));
+                    }
+                    ss.poll_capacity(cx)
+                })
+                .await;
                 ctx.tick();
+                if coop && cancel.fired() {
+                    ctx.hist.dir(sid, dir, |d| {
+                        if !d.s_end {
+                            d.s_abort = Some("abandoned with the reader".into())
+                        }
+                    });
+                    ctx.hist.log(side, sid, || "drop SendStream (stream abandoned)".to_string());
+                    aborted = true;
+                    break 'outer;
+                }
                 match got {
                     Some(Ok(0)) => {
                         ctx.hist.violation(Violation::new("C16", "capacity-zero", "poll_capacity", format!("poll_capacity returned Some(Ok(0)) on stream {}", sid), ctx.hist.step()));
@@ -514,7 +571,13 @@ pub async fn send_body(ctx: Ctx, name: String, side: u8, mut ss: h2::SendStream<
     }
     if plan.wait_reset && !aborted {
         ctx.status.set(&name, "poll_reset");
-        let r = poll_fn(|cx| ss.poll_reset(cx)).await;
+        let r = poll_fn(|cx| {
+            if coop && cancel.check(cx.waker()) {
+                return Poll::Ready(Ok(h2::Reason::NO_ERROR));
+            }
+            ss.poll_reset(cx)
+        })
+        .await;
         ctx.tick();
         match r {
             Ok(code) => ctx.hist.log(side, sid, || format!("poll_reset -> {:?}", code)),
@@ -526,7 +589,7 @@ pub async fn send_body(ctx: Ctx, name: String, side: u8, mut ss: h2::SendStream<
 }
 
 /// Reads a body to its end (or to the plan's stop point), verifying the byte pattern.
-pub async fn read_body(ctx: Ctx, name: String, side: u8, mut body: h2::RecvStream, plan: ReadPlan, dir: usize, sid: u32) {
+pub async fn read_body(ctx: Ctx, name: String, side: u8, mut body: h2::RecvStream, plan: ReadPlan, dir: usize, sid: u32, cancel: Cancel) {
     let mut held: usize = 0;
     let mut off: u64 = 0;
     let coop = ctx.coop;
@@ -549,13 +612,21 @@ pub async fn read_body(ctx: Ctx, name: String, side: u8, mut body: h2::RecvStrea
                 ctx.hist.dir(sid, dir, |d| d.r_stopped = true);
                 ctx.hist.log(side, sid, || format!("drop RecvStream after {} bytes (held {})", off, held));
                 note_reset(&ctx, side, sid, 8, "drop_recv");
+                if coop {
+                    cancel.fire();
+                }
                 ctx.status.set(&name, "done");
                 return;
             }
         }
         ctx.status.set(&name, "poll_data");
         let rel = plan.release;
+        let mut cancelled = false;
         let item = poll_fn(|cx| {
+            if coop && cancel.check(cx.waker()) {
+                cancelled = true;
+                return Poll::Ready(None);
+            }
             let r = body.poll_data(cx);
             if r.is_pending() && held > 0 && (coop || rel == Release::WhenBlocked) && rel != Release::Never {
                 // a cooperative reader releases what it holds at the latest when it would block
@@ -569,6 +640,12 @@ pub async fn read_body(ctx: Ctx, name: String, side: u8, mut body: h2::RecvStrea
         })
         .await;
         ctx.tick();
+        if cancelled {
+            ctx.hist.dir(sid, dir, |d| d.r_stopped = true);
+            ctx.hist.log(side, sid, || "drop RecvStream (stream abandoned)".to_string());
+            ctx.status.set(&name, "done");
+            return;
+        }
         match item {
             Some(Ok(b)) => {
                 let len = b.len();
@@ -630,8 +707,23 @@ pub async fn read_body(ctx: Ctx, name: String, side: u8, mut body: h2::RecvStrea
         let _ = body.flow_control().release_capacity(held);
     }
     ctx.status.set(&name, "poll_trailers");
-    let tr = poll_fn(|cx| body.poll_trailers(cx)).await;
+    let tr = poll_fn(|cx| {
+        if coop && cancel.check(cx.waker()) {
+            return Poll::Ready(Err(None));
+        }
+        body.poll_trailers(cx).map_err(Some)
+    })
+    .await;
     ctx.tick();
+    let tr = match tr {
+        Ok(t) => Ok(t),
+        Err(Some(e)) => Err(e),
+        Err(None) => {
+            ctx.hist.dir(sid, dir, |d| d.r_stopped = true);
+            ctx.status.set(&name, "done");
+            return;
+        }
+    };
     match tr {
         Ok(t) => {
             let f = t.as_ref().map(fields_of_headermap);
@@ -699,9 +791,11 @@ pub async fn client_stream(ctx: Ctx, name: String, mut sr: h2::client::SendReque
     if !prog.hold_clone {
         drop(sr);
     }
+    let cancel = Cancel::default();
+    let coop = ctx.coop;
     if !eos {
         let n = format!("c:s{}:send", sid);
-        ctx.spawner.spawn(n.clone(), send_body(ctx.clone(), n, 0, ss, prog.body.clone(), 0, sid));
+        ctx.spawner.spawn(n.clone(), send_body(ctx.clone(), n, 0, ss, prog.body.clone(), 0, sid, cancel.clone()));
     } else {
         drop(ss);
     }
@@ -714,13 +808,22 @@ pub async fn client_stream(ctx: Ctx, name: String, mut sr: h2::client::SendReque
         ctx.hist.dir(sid, 1, |d| d.r_stopped = true);
         note_reset(&ctx, 0, sid, 8, "drop_response_future");
         ctx.hist.log(0, sid, || "drop ResponseFuture".to_string());
+        if coop {
+            cancel.fire();
+        }
         ctx.status.set(&name, "done");
         return;
     }
     if prog.poll_informational {
         loop {
             ctx.status.set(&name, "poll_informational");
-            let r = poll_fn(|cx| resp_fut.poll_informational(cx)).await;
+            let r = poll_fn(|cx| {
+                if coop && cancel.check(cx.waker()) {
+                    return Poll::Ready(None);
+                }
+                resp_fut.poll_informational(cx)
+            })
+            .await;
             ctx.tick();
             match r {
                 Some(Ok(resp)) => {
@@ -737,8 +840,23 @@ pub async fn client_stream(ctx: Ctx, name: String, mut sr: h2::client::SendReque
         }
     }
     ctx.status.set(&name, "response");
-    let r = (&mut resp_fut).await;
+    let r = poll_fn(|cx| {
+        if coop && cancel.check(cx.waker()) {
+            return Poll::Ready(None);
+        }
+        std::pin::Pin::new(&mut resp_fut).poll(cx).map(Some)
+    })
+    .await;
     ctx.tick();
+    let r = match r {
+        Some(r) => r,
+        None => {
+            ctx.hist.dir(sid, 1, |d| d.r_stopped = true);
+            ctx.hist.log(0, sid, || "drop ResponseFuture (stream abandoned)".to_string());
+            ctx.status.set(&name, "done");
+            return;
+        }
+    };
     match r {
         Ok(resp) => {
             let f = fields_of_response(&resp);
@@ -749,7 +867,7 @@ pub async fn client_stream(ctx: Ctx, name: String, mut sr: h2::client::SendReque
             ctx.hist.log(0, sid, || format!("response {}", resp.status()));
             let body = resp.into_body();
             drop(resp_fut);
-            read_body(ctx.clone(), name.clone(), 0, body, prog.read.clone(), 1, sid).await;
+            read_body(ctx.clone(), name.clone(), 0, body, prog.read.clone(), 1, sid, cancel.clone()).await;
         }
         Err(e) => {
             ctx.hist.error(0, sid, "response", &e);
@@ -786,7 +904,7 @@ async fn client_pushes(ctx: Ctx, name: String, mut pp: h2::client::PushPromises,
                                 d.r_head = Some(f);
                                 d.r_head_count += 1;
                             });
-                            read_body(c2.clone(), n2.clone(), 0, resp.into_body(), read, 1, pid).await;
+                            read_body(c2.clone(), n2.clone(), 0, resp.into_body(), read, 1, pid, Cancel::default()).await;
                         }
                         Err(e) => {
                             c2.tick();
@@ -819,8 +937,9 @@ pub async fn server_stream(ctx: Ctx, name: String, req: http::Request<h2::RecvSt
     });
     ctx.hist.log(1, sid, || format!("accepted {} {}", req.method(), req.uri()));
     let body = req.into_body();
+    let cancel = Cancel::default();
     let rn = format!("s:s{}:read", sid);
-    ctx.spawner.spawn(rn.clone(), read_body(ctx.clone(), rn, 1, body, prog.read.clone(), 0, sid));
+    ctx.spawner.spawn(rn.clone(), read_body(ctx.clone(), rn, 1, body, prog.read.clone(), 0, sid, cancel.clone()));
     for _ in 0..prog.respond_delay {
         yield_now().await;
     }
@@ -833,10 +952,13 @@ pub async fn server_stream(ctx: Ctx, name: String, req: http::Request<h2::RecvSt
         ctx.status.set(&name, "done");
         return;
     }
-    if prog.drop_without_response {
+    if prog.drop_without_response || (ctx.coop && cancel.fired()) {
         ctx.hist.dir(sid, 1, |d| d.s_abort = Some("drop".into()));
         note_reset(&ctx, 1, sid, 8, "drop_respond");
         ctx.hist.log(1, sid, || "drop SendResponse".to_string());
+        if ctx.coop {
+            cancel.fire();
+        }
         ctx.status.set(&name, "done");
         return;
     }
@@ -877,7 +999,7 @@ pub async fn server_stream(ctx: Ctx, name: String, req: http::Request<h2::RecvSt
                         });
                         if !p.eos_on_headers {
                             let n = format!("s:s{}:send", pid);
-                            ctx.spawner.spawn(n.clone(), send_body(ctx.clone(), n, 1, ss, p.body.clone(), 1, pid));
+                            ctx.spawner.spawn(n.clone(), send_body(ctx.clone(), n, 1, ss, p.body.clone(), 1, pid, Cancel::default()));
                         }
                     }
                     Err(e) => {
@@ -907,7 +1029,7 @@ pub async fn server_stream(ctx: Ctx, name: String, req: http::Request<h2::RecvSt
             ctx.hist.log(1, sid, || format!("send_response({}, eos={})", prog.status, eos));
             if !eos {
                 let n = format!("s:s{}:send", sid);
-                ctx.spawner.spawn(n.clone(), send_body(ctx.clone(), n, 1, ss, prog.body.clone(), 1, sid));
+                ctx.spawner.spawn(n.clone(), send_body(ctx.clone(), n, 1, ss, prog.body.clone(), 1, sid, cancel.clone()));
             }
         }
         Err(e) => {
